@@ -229,6 +229,12 @@ fn drain(f: &mut File, out: &mut Vec<u8>) {
     }
 }
 
+macro_rules! LONG_LITERAL {
+    () => {
+        concat!("first line\n", "xxxxxxxxxxxxxxxxxxxxxxxxxxxxxxxxxxxxxxxxxxxxxxxxxxxxxxxxxxxxxxxxxxxxxxxxxxxxxxxxxxxxxxxxxxxxxxxxxxxxxxxxxxxxxxxxxxxxxxxxxxxxxxxxxxxxxxxxxxxxxxxxxxxxxxxxxxxxxxxxxxxxxxxxxxxxxxxxxxxxxxxxxxxxxxxxxxxxxxxxxxxxxxxxxxxxxxxxxxxxxxxxxxxxxxxxxxxxxxxxxxxxxxxxxxxxxxxxxxxxxxxxxxxxxxxxxxxxxxxxxxxxxxxxxxxxxxxxxxxxxxxxxxxxxxxxxxxxxxxxxxxxxxxxxxxxxxxxxxxxxxxxxxxxxxxxxxxxxxxxxxxxxxxxxxxxxxxxxxxxxxxxxxxxxxxxxxxxxxxxxxxxxxxxxxxxxxxxxxxxxxxxxxxxxxxxxxxxxxxxxxxxxxxxxxxxxxxxxxxxxxxxxxxxxxxxxxxxxxxxxxxxxxxxxxxxxxxxxxxxxxxxxxxxxxxxxxxxxxxxxxxxxxxxxxxxxxxxxxxxxxxxxxxxxxxxxxxxxxxxxxxxxxxxxxxxxxxxxxxxxxxxxxxxxxxxxxxxxxxxxxxxxxxxxxxxxxxxxxxxxxxxxxxxxxxxxxxxxxxxxxxxxxxxxxxxxxxxxxxxxxxxxxxxxxxxxxxxxxxxxxxxxxxxxxxxxxxxxxxxxxxxxxxxxxxxxxxxxxxxxxxxxxxxxxxxxxxxxxxxxxxxxxxxxxxxxxxxxxxxxxxxxxxxxxxxxxxxxxxxxxxxxxxxxxxxxxxxxxxxxxxxxxxxxxxxxxxxxxxxxxxxxxxxxxxxxxxxxxxxxxxxxxxxxxxxxxxxxxxxxxxxxxxxxxxxxxxxxxxxxxxxxxxxxxxxxxxxxxxxxxxxxxxxxxxxxxxxxxxxxxxxxxxxxxxxxxxxxxxxxxxxxxxxxxxxxxxxxxxxxxxxxxxxxxxxxxxxxxxxxxxxxxxxxxxxxxxxxxxxxxxxxxxxxxxxxxxxxxxxxxxxxxxxxxxxxxxxxxxxxxxxxxxxxxxxxxxxxxxxxxxxxxxxxxxxxxxxxxxxxxxxxxxxxxxxxxxxxxxx")
+    };
+}
+
 pub const CHILD_PATTERN: &str = "{h({l})} {m} [{h({(x{l}y)})}]|{h({m}):.3}|{h({l}):>7}{n}";
 
 fn expected_output(colour: bool, abrupt: bool, newline_inside_highlight: bool) -> Vec<u8> {
@@ -310,6 +316,10 @@ pub fn child_main(args: &[String]) -> i32 {
     }
     if abrupt {
         unsafe { libc::_exit(0) }
+    }
+    // a literal message (no format arguments) of two lines whose last line is longer than any line buffer
+    if app.append(&Record::builder().level(Level::Debug).target("t").args(format_args!(LONG_LITERAL!())).build()).is_err() {
+        return 3;
     }
     0
 }
@@ -671,7 +681,12 @@ fn console_case(rep: &mut Report, idx: u64) {
     }
     rep.count("console_children", 1);
     let show = |b: &[u8]| String::from_utf8_lossy(b).replace('\x1b', "ESC");
-    let want: Vec<u8> = if writes { expected_output(colour, abrupt, abrupt && tty_only_first) } else { vec![] };
+    let mut want: Vec<u8> = if writes { expected_output(colour, abrupt, abrupt && tty_only_first) } else { vec![] };
+    if writes && !abrupt {
+        // the sixth record: DEBUG (no style), literal two-line message
+        let m: &str = LONG_LITERAL!();
+        want.extend_from_slice(format!("DEBUG {} [xDEBUGy]|{}|  DEBUG\n", m, &m[..3]).as_bytes());
+    }
     if !got_other.is_empty() {
         rep.violation("C18:wrote-to-the-other-stream", json!({"case": d, "other_stream": show(&got_other)}));
     }
